@@ -25,6 +25,8 @@ import EaselModel.Msafile.AfaReadDomain
 import EaselModel.Msafile.ClustalReadDomain
 import EaselModel.Msafile.PsiblastReadDomain
 import EaselModel.Msafile.PhylipReadDomain
+import EaselModel.Msafile.StoTokens
+import EaselModel.Msafile.StoFirstMention
 /-! # C03 — writing an alignment and reading it back preserves it: property theorems
 
 Full statement (properties.jsonl): for every well-formed alignment, writing it in any of the ten formats and reading the
@@ -2547,5 +2549,105 @@ example : guessFormat none (splitLines (psiblastWrite none exPsi)) = .ok (.selex
 example : guessFormat (some (str "x.pb")) (splitLines (psiblastWrite none exPsi)) = .ok (.psiblast, 0) := by decide +kernel
 
 /-! ## ===== AUTODETECT — end ===== -/
+
+/-! ## ===== WEIGHT AND CUT-OFF TOKENS (round 6) =====
+
+"Stockholm and Pfam preserve … weights and score cut-offs to the two and one decimals the format prints."  The reader MODEL keeps of a
+weight / cut-off whether it is set (the token → double conversion is modelled by C01).  Proved here about the tokens, for EVERY finite
+binary64 weight / binary32 cut-off (negative values, zeros, subnormals included): well-formedness, the exact decimal value the token
+denotes, its distance from the value printed, and that the reader's tokenizer hands `esl_memtod` exactly the printed bytes. -/
+
+/-- every finite weight prints as `[-]d…d.dd`: two fraction digits, accepted by `esl_mem_IsReal`, one blank-free token -/
+theorem weight_token_wellformed (b : UInt64) (h : finiteF64 b) :
+    ∃ ip fp, fmtF2 b = (if f64Neg b then [45] else []) ++ (ip ++ 46 :: fp) ∧ ip ≠ [] ∧ allDig ip ∧ allDig fp ∧ fp.length = 2 ∧
+      RealTok (fmtF2 b) := fmtF2_wellformed b h
+
+/-- read by an independent decimal parser the weight token has the sign bit of the weight, two decimals, and denotes `fixedQ`
+    hundredths, where the weight is `± f64Mant b * 2 ^ f64Exp b` -/
+theorem weight_token_value (b : UInt64) (h : finiteF64 b) :
+    (decTok (fmtF2 b)).1 = f64Neg b ∧ (decTok (fmtF2 b)).2.2.length = 2 ∧ decTokUnits (fmtF2 b) = fixedQ (f64Mant b) (f64Exp b) 2 :=
+  fmtF2_value b h
+
+/-- every finite cut-off prints as `[-]d…d.d` -/
+theorem cutoff_token_wellformed (b : UInt32) (h : finiteF32 b) :
+    ∃ ip fp, fmtF1 b = (if f32Neg b then [45] else []) ++ (ip ++ 46 :: fp) ∧ ip ≠ [] ∧ allDig ip ∧ allDig fp ∧ fp.length = 1 ∧
+      RealTok (fmtF1 b) := fmtF1_wellformed b h
+
+theorem cutoff_token_value (b : UInt32) (h : finiteF32 b) :
+    (decTok (fmtF1 b)).1 = f32Neg b ∧ (decTok (fmtF1 b)).2.2.length = 1 ∧ decTokUnits (fmtF1 b) = fixedQ (f32Mant b) (f32Exp b) 1 :=
+  fmtF1_value b h
+
+/-- the printed integer of units is the value scaled by `10^prec`: exact for a non-negative binary exponent … -/
+theorem printed_value_exact (mant : Nat) (e : Int) (prec : Nat) (he : 0 ≤ e) : fixedQ mant e prec = mant * 10 ^ prec * 2 ^ e.toNat :=
+  fixedQ_exact mant e prec he
+
+/-- … and otherwise within HALF a unit of the last printed decimal: `|q * 2^k - mant * 10^prec| ≤ 2^k / 2`, `k = -e` -/
+theorem printed_value_half_unit (mant : Nat) (e : Int) (prec : Nat) (he : e < 0) :
+    2 * (fixedQ mant e prec * 2 ^ (-e).toNat) ≤ 2 * (mant * 10 ^ prec) + 2 ^ (-e).toNat ∧
+    2 * (mant * 10 ^ prec) ≤ 2 * (fixedQ mant e prec * 2 ^ (-e).toNat) + 2 ^ (-e).toNat := fixedQ_half_unit mant e prec he
+
+/-- **token round trip**: under the three `esl_memtok` calls of `stockholm_parse_gs` the written line `#=GS <name> WT <token>` comes
+    apart into `#=GS`, the name, `WT` and - byte for byte - the token `printf("%.2f")` produced, which `esl_mem_IsReal` accepts -/
+theorem weight_token_roundtrip (m : Msa) (i : Nat) (hn : nameOk (m.names.getD i [])) (hf : finiteF64 ((m.wgt.getD i Wgt.unset).toBits)) :
+    ∃ p1 p2, memtok (gsLine m 0 i (wtTok m i)) blankTab = some (bGS, p1) ∧ memtok p1 blankTab = some (m.names.getD i [], p2) ∧
+      memtok p2 blankTab = some (bWT, wtTok m i) ∧ memtok (wtTok m i) blankTab = some (wtTok m i, []) ∧
+      memIsReal (wtTok m i) = true := wt_line_weight_token m i hn hf
+
+/-- non-vacuity: 0.125 is finite, prints as `0.12` (tie to even) = 12 hundredths; -2.5 prints as `-2.50`; the smallest subnormal as `0.00` -/
+example : finiteF64 0x3fc0000000000000 ∧ fmtF2 0x3fc0000000000000 = str "0.12" ∧ decTokUnits (fmtF2 0x3fc0000000000000) = 12 := by
+  unfold finiteF64; decide +kernel
+example : finiteF64 0xc004000000000000 ∧ fmtF2 0xc004000000000000 = str "-2.50" ∧ (decTok (fmtF2 0xc004000000000000)).1 = true := by
+  unfold finiteF64; decide +kernel
+example : finiteF64 1 ∧ fmtF2 1 = str "0.00" := by unfold finiteF64; decide +kernel
+example : finiteF32 0x41c80000 ∧ fmtF1 0x41c80000 = str "25.0" ∧ decTokUnits (fmtF1 0x41c80000) = 250 := by unfold finiteF32; decide +kernel
+example : nameOk (exStoWt.names.getD 0 []) ∧ finiteF64 ((exStoWt.wgt.getD 0 Wgt.unset).toBits) := by
+  unfold nameOk finiteF64; decide +kernel
+
+/-! ## ===== FIRST-MENTION ORDER (round 6): what the Stockholm reader DOES produce =====
+
+Known finding C03:stockholm:first-mention-order as a specification.  `stoSeqOrder m` / `stoGrOrder m` are the orders in which the
+reader numbers the sequences / unparsed `#=GR` tags of `write m`; `stoMention m` is `m` rearranged into them.
+
+FULL statement (`StoMentionRoundTrip`): for every writable alignment, WITHOUT `gsOrderOk` / `grOrderOk`,
+    `read (write m) = ok (stoProject (stoMention m))`.
+Proved: the two orders are permutations for EVERY alignment; the sequence order is the identity under `gsOrderOk`, so the proved round
+trip is the full statement's special case "permutation = identity" (`stockholm_roundtrip_mention_partial`); the full statement at the
+witnesses of the finding (`decide`).  Not proved: the full statement in general (see `Msafile/StoFirstMention.lean`); the monitor
+demands it of the real library on every generated case, inside the region of the finding too. -/
+
+theorem stockholm_seq_order_perm (m : Msa) : (stoSeqOrder m).Perm (List.range m.nseq) := stoSeqOrder_perm m
+
+theorem stockholm_gr_order_perm (m : Msa) : (stoGrOrder m).Perm (List.range m.gr.length) := stoGrOrder_perm m
+
+theorem stockholm_seq_order_id (m : Msa) (h : gsOrderOk m) : stoSeqOrder m = List.range m.nseq := stoSeqOrder_id_of_gsOrderOk m h
+
+/-- PARTIAL (full statement: `StoMentionRoundTrip pfam abc cfg m` for every `m` that satisfies `StoWritable` without its two order
+    clauses): under the order hypotheses the reader's sequence order is the alignment's, and the alignment comes back as it is -/
+theorem stockholm_roundtrip_mention_partial (pfam : Bool) (abc : Option Abc) (cfg : Cfg) (enc : UInt8 → UInt8) (txt : Nat → Bytes) (m : Msa)
+    (h : StoWritable abc cfg enc txt m) :
+    stockholmRead cfg (splitLines (stockholmWrite pfam abc m)) = (.ok (stoProject cfg m), []) ∧ stoSeqOrder m = List.range m.nseq :=
+  ⟨stoRead_write pfam abc cfg enc txt m h, stoSeqOrder_id_of_gsOrderOk m h.ann.gs_order⟩
+
+example : gsOrderOk exStoWt ∧ stoSeqOrder exStoWt = List.range exStoWt.nseq := ⟨gsOrderOk_of_hasw exStoWt rfl, by decide +kernel⟩
+
+/-- the full statement AT the witnesses of the known finding: sparse `#=GS AC` (sequence order `[1, 0]`) … -/
+example : stoSeqOrder exStoGsBad = [1, 0] ∧ stoGrOrder exStoGsBad = [] := by decide +kernel
+example : StoMentionRoundTrip true none (stockholmCfg none) exStoGsBad := by unfold StoMentionRoundTrip; decide +kernel
+example : StoMentionRoundTrip false none (stockholmCfg none) exStoGsBad := by unfold StoMentionRoundTrip; decide +kernel
+/-- … `#=GR` tags first used by a later sequence (tag order `[1, 0]`) … -/
+example : stoSeqOrder exStoGrBad = [0, 1] ∧ stoGrOrder exStoGrBad = [1, 0] := by decide +kernel
+example : StoMentionRoundTrip true none (stockholmCfg none) exStoGrBad := by unfold StoMentionRoundTrip; decide +kernel
+
+/-- … and both at once, three sequences: `DE` only for the second, `#=GS OS` only for the third, `#=GR tA` only on the third, `tB` only
+    on the second: sequences come back in the order `[1, 2, 0]`, tags in the order `[1, 0]` -/
+def exStoMention : Msa :=
+  { alen := 3, names := [str "a", str "b", str "c"], aseq := [str "ACG", str "A-G", str "AAA"], wgt := [.dflt, .dflt, .dflt],
+    sqdesc := some [none, some (str "foo"), none], gs := [(str "OS", [none, none, some (str "qq")])],
+    gr := [(str "tA", [none, none, some (str "abc")]), (str "tB", [none, some (str "abc"), none])] }
+
+example : stoSeqOrder exStoMention = [1, 2, 0] ∧ stoGrOrder exStoMention = [1, 0] := by decide +kernel
+example : (stoMention exStoMention).names = [str "b", str "c", str "a"] ∧
+    (stoMention exStoMention).gr = [(str "tB", [some (str "abc"), none, none]), (str "tA", [none, some (str "abc"), none])] := by decide +kernel
+example : StoMentionRoundTrip false none (stockholmCfg none) exStoMention := by unfold StoMentionRoundTrip; decide +kernel
 
 end EaselModel.Props.C03
